@@ -105,6 +105,11 @@ def run(ctx, scn):
     os.makedirs(base)
     XSH.env["XONSH_DATA_DIR"] = os.path.join(base, "data")
     os.makedirs(XSH.env["XONSH_DATA_DIR"])
+    # the script is run through a symlink that points at file F1 or at a second file F2
+    f1 = os.path.join(base, "releases", "v1", "script.xsh")
+    f2 = os.path.join(base, "releases", "v2", "script.xsh")
+    os.makedirs(os.path.dirname(f1))
+    os.makedirs(os.path.dirname(f2))
     script = os.path.join(base, "script.xsh")
     if scn.get("truncsweep"):
         try:
@@ -112,9 +117,13 @@ def run(ctx, scn):
         finally:
             shutil.rmtree(base, ignore_errors=True)
     content, clock = 1, 0
-    with open(script, "w") as fh:
+    with open(f1, "w") as fh:
         fh.write(_content(content))
-    os.utime(script, (BASE, BASE))
+    os.utime(f1, (BASE, BASE))
+    with open(f2, "w") as fh:
+        fh.write(_content(3))
+    os.utime(f2, (BASE, BASE))
+    os.symlink(f1, script)
     _set_switches(XSH, scn["sw"])
     steps = []
     try:
@@ -123,30 +132,41 @@ def run(ctx, scn):
             obs = {}
             if cmd == "tick":
                 clock += 1
-            elif cmd in ("edit", "editolder"):
+            elif cmd == "editat":
                 content = 3 - content
-                m = os.stat(script).st_mtime - 100 if cmd == "editolder" else BASE + clock * 100
-                with open(script, "w") as fh:
+                m = BASE + int(st["a"]) * 100
+                # a new version installed with its own (possibly earlier) timestamp: mv / cp -p
+                tmp = f1 + ".new"
+                with open(tmp, "w") as fh:
                     fh.write(_content(content))
-                os.utime(script, (m, m))
+                os.utime(tmp, (m, m))
+                os.replace(tmp, f1)
             elif cmd == "touch":
                 m = BASE + clock * 100
-                os.utime(script, (m, m))
+                os.utime(f1, (m, m))
+            elif cmd == "relink":
+                tgt = f2 if os.readlink(script) == f1 else f1
+                os.remove(script)
+                os.symlink(tgt, script)
             elif cmd == "damage":
-                if not os.path.exists(_cache_file(XSH, script)):
+                if not os.path.exists(_cache_file(XSH, f1)):
                     break  # the planned step is not possible here (no entry was written)
-                _damage(_cache_file(XSH, script), st["a"])
+                _damage(_cache_file(XSH, f1), st["a"])
             elif cmd == "switch":
                 _set_switches(XSH, st["sw"])
             elif cmd == "runscript":
-                cf = _cache_file(XSH, script)
+                cf = _cache_file(XSH, os.path.realpath(script))
                 before = os.stat(cf).st_mtime_ns if os.path.exists(cf) else None
                 before_data = open(cf, "rb").read() if before is not None else None
                 ran, fatal, msg = _run_script(XSH, script)
                 if os.path.exists(cf):
                     now_data = open(cf, "rb").read()
-                    if before is None or now_data != before_data or os.stat(cf).st_mtime_ns != before:
+                    if before is None or now_data != before_data:
                         m = BASE + clock * 100  # the entry was (re)written now
+                        os.utime(cf, (m, m))
+                    elif os.stat(cf).st_mtime_ns != before:
+                        # the code touched the entry without rewriting it: it did so "now"
+                        m = BASE + clock * 100
                         os.utime(cf, (m, m))
                 obs = {"ran": ran, "fatal": fatal, "msg": msg}
             elif cmd == "runcode":
@@ -187,6 +207,8 @@ def _truncsweep(ctx, script):
     XSH = ctx["XSH"]
     _set_switches(XSH, {"envScripts": True, "envAll": True, "scriptcache": True, "cacheall": True})
     out = {"lengths": 0, "failures": []}
+    if os.path.islink(script):
+        os.remove(script)
     with open(script, "w") as fh:
         fh.write(_content(1) + "def f(a, b=2):\n    return [a, b, 'text', 1.5]\n")
     os.utime(script, (BASE, BASE))
@@ -201,5 +223,29 @@ def _truncsweep(ctx, script):
         out["lengths"] += 1
         if ran != 1 or fatal:
             out["failures"].append({"store": "script", "length": n, "of": len(full), "ran": ran, "fatal": fatal, "msg": msg})
-    # bit flips in the marshalled section must not be fatal either (they may legitimately load)
+    # byte substitutions in the marshalled section: such an entry may legitimately load (there is no
+    # checksum), but reading it must never raise out of run_script_with_cache
+    hdr = len(full) - len(full.split(b"\n", 2)[2])
+    out["substitutions"] = 0
+    for off in range(hdr, len(full)):
+        for val in (0x80, 0xFF):
+            if full[off] == val:
+                continue
+            data = bytearray(full)
+            data[off] = val
+            with open(cf, "wb") as fh:
+                fh.write(bytes(data))
+            os.utime(cf, (BASE + 500, BASE + 500))
+            escaped = None
+            # only the reader is exercised (marshal.load inside script_cache_check): executing
+            # arbitrarily corrupted bytecode could loop or crash the harness
+            from xonsh.codecache import script_cache_check
+
+            try:
+                script_cache_check(script, cf)
+            except BaseException as e:  # noqa: BLE001
+                escaped = f"{type(e).__name__}: {e}"
+            out["substitutions"] += 1
+            if escaped:
+                out["failures"].append({"store": "script", "byte": off, "value": val, "escaped": escaped})
     return out
